@@ -29,7 +29,7 @@ RULE = (
     "synthetic readers; layer F: 12 corpus layouts (1-2 corpora x 1-2 files, 1..11 docs, with/without action-and-meta-data lines, ASCII and "
     "2/3/4-byte UTF-8) x clients 1..5 x worker splits of 4 layouts x bulk {1,2,3,5,1000} x batch {1x,2x,3x} x percentage {100,75,50,34,1} and "
     "conflict modes; layer E: 12 layouts x clients {1,2,3,5} x 4 worker splits x bulk {1,3,1000} end to end through the real worker stack "
-    "(AsyncIoAdapter .. BulkIndex runner .. client) against the simulated _bulk endpoint, also with the bulk task inside a parallel element beside another task (allocations from the real Allocator: client id != index in task, element larger than the task); layer O: files of 49999..200000 lines (offset tables; also sizes where a client group starts exactly on a table entry) with multi-byte content, one of them a new revision of a file whose offset table already existed, x clients {2,3} x two bulk sizes. "
+    "(AsyncIoAdapter .. BulkIndex runner .. client) against the simulated _bulk endpoint, also with the bulk task inside a parallel element beside another task (allocations from the real Allocator: client id != index in task, element larger than the task) and beside a twin bulk task that refers to the same operation (each ingests the whole corpus); layer O: files of 49999..200000 lines (offset tables; also sizes where a client group starts exactly on a table entry) with multi-byte content, one of them a new revision of a file whose offset table already existed, x clients {2,3} x two bulk sizes. "
     "non-trivial = more than one client or more than one bulk; distinct = the configuration"
 )
 ASSUMPTIONS = [
@@ -409,7 +409,14 @@ def check_e2e(layout_i, clients, hname, bulk, res, beside=0):
         return {"service_time": 0.0625, "body": {"took": 1, "errors": False, "items": [{"index": {"status": 201}}] * n}}
 
     rows = None
-    if beside:
+    twin = beside == "twin"
+    if twin:
+        # two differently named bulk tasks that refer to the SAME operation run side by side (clients of both co-located on a worker): each
+        # task has its own parameter source, so each ingests the whole corpus exactly once
+        beside = clients
+        other = track.Task("bulk-twin", op, clients=clients)
+        rows = driver.Allocator([track.Parallel([other, task])]).allocations
+    elif beside:
         # the bulk task runs inside a parallel element beside another task with `beside` clients: the real Allocator numbers the clients,
         # so a client's index in the task differs from its id and the element has more clients than the task
         other = track.Task("other", track.Operation("other-op", "sleep", params={"duration": 1}), clients=beside)
@@ -421,23 +428,25 @@ def check_e2e(layout_i, clients, hname, bulk, res, beside=0):
             if rows is None:
                 allocs = [(cid, loadgen.allocation(task, cid)) for cid in group]
             else:
-                allocs = [(g, ta) for g in group for ta in rows[g] if isinstance(ta, driver.TaskAllocation) and ta.task is task]
+                allocs = [(g, ta) for g in group for ta in rows[g] if isinstance(ta, driver.TaskAllocation) and (twin or ta.task is task)]
                 if not allocs:
                     continue
             r = loadgen.run_worker(allocs, behaviour, track=trk)
             if r.error is not None or r.loop_errors:
                 v = ("e2e-raises", f"clients {group}: {type(r.error).__name__}: {r.error} {r.loop_errors[:1]}")
                 break
+            tname = {g: ta.task.name for g, ta in allocs}
             for e in r.log:
                 if "_bulk" not in e["target"]:
                     continue
                 nreq += 1
+                tn = tname.get(e["client_id"], "?") if twin else "bulk-task"
                 lines = split_body(e["body"] or b"")
                 if len(lines) % 2:
                     v = ("e2e-unpaired-lines", f"request with {len(lines)} lines")
                     break
                 for k in range(0, len(lines), 2):
-                    did = json.loads(lines[k + 1])["id"]
+                    did = (tn, json.loads(lines[k + 1])["id"])
                     seen[did] = seen.get(did, 0) + 1
             total_ops = sum(s.total_ops for s in r.samples)
             if v is None and total_ops != sum(len(split_body(e["body"] or b"")) // 2 for e in r.log if "_bulk" in e["target"]):
@@ -449,20 +458,21 @@ def check_e2e(layout_i, clients, hname, bulk, res, beside=0):
         for path, lines in ref.items():
             meta = any(d.includes_action_and_meta_data for c in trk.corpora for d in c.documents if d.document_file == path)
             for l in (lines[1::2] if meta else lines):
-                want.add(json.loads(l)["id"])
+                for tn in ("bulk-task", "bulk-twin") if twin else ("bulk-task",):
+                    want.add((tn, json.loads(l)["id"]))
         missing = sorted(want - set(seen))
         dups = sorted(k for k, n in seen.items() if n > 1)
         extra = sorted(set(seen) - want)
         if missing or dups or extra:
             v = ("e2e-not-exactly-once", f"missing {missing[:6]} duplicated {dups[:6]} unexpected {extra[:6]}")
     res.case(
-        case_repr={"end_to_end": True, "corpora": LAYOUTS[layout_i], "clients": clients, "workers": hname, "bulk": bulk, "bulk_requests": nreq, "clients_of_parallel_sibling": beside} if res.sample_now(211) else None,
-        nontrivial_key=("E", layout_i, clients, hname, bulk, beside) if clients > 1 or nreq > 1 else None,
-        outcome_key=("E", nreq, beside, v[0] if v else "ok"),
+        case_repr={"end_to_end": True, "corpora": LAYOUTS[layout_i], "clients": clients, "workers": hname, "bulk": bulk, "bulk_requests": nreq, "clients_of_parallel_sibling": "twin task on the same operation" if twin else beside} if res.sample_now(211) else None,
+        nontrivial_key=("E", layout_i, clients, hname, bulk, "twin" if twin else beside) if clients > 1 or nreq > 1 else None,
+        outcome_key=("E", nreq, "twin" if twin else beside, v[0] if v else "ok"),
     )
     if v:
-        res.violation(f"bulk:{v[0]}" + (":in-parallel-element" if beside else ""), f"end-to-end corpora={LAYOUTS[layout_i]} clients={clients} workers={hname} bulk={bulk} beside a parallel task with {beside} clients: {v[1]}",
-                      {"layer": "E", "layout": layout_i, "clients": clients, "hosts": hname, "bulk": bulk, "beside": beside})
+        res.violation(f"bulk:{v[0]}" + (":twin-tasks-one-operation" if twin else ":in-parallel-element" if beside else ""), f"end-to-end corpora={LAYOUTS[layout_i]} clients={clients} workers={hname} bulk={bulk} beside a parallel task with {beside} clients: {v[1]}",
+                      {"layer": "E", "layout": layout_i, "clients": clients, "hosts": hname, "bulk": bulk, "beside": "twin" if twin else beside})
 
 
 def e2e_cases(tier):
@@ -475,6 +485,7 @@ def e2e_cases(tier):
                     yield (li, clients, hname, bulk)
                     if bulk == 3 and hname in ("1x1", "1x2") and clients > 1:
                         yield (li, clients, hname, bulk, None, 1)
+                        yield (li, clients, hname, bulk, None, "twin")
                         if tier == "thorough":
                             yield (li, clients, hname, bulk, None, 2)
 
